@@ -32,6 +32,53 @@ pub struct Plan {
 	pub segment_thread: bool,
 	pub compactor_thread: bool,
 	pub stay_pct: u64,
+	/// blocks whose headers are not known before the threads start: a "headers" thread delivers
+	/// them (header-first) while the peers already submit bodies
+	pub late: Vec<usize>,
+	pub header_batches: bool,
+}
+
+/// Transactions the readers validate while the chain changes under them.
+#[derive(Clone)]
+pub struct Probes {
+	/// spends an output that is unspent (and mature) in every state the node can commit during the run
+	pub stable: Option<grin_core::core::Transaction>,
+	/// spends an output that exists in no state
+	pub never: grin_core::core::Transaction,
+}
+
+pub fn build_probes(world: &mut World, plan: &Plan) -> Probes {
+	use grin_core::core::{FeeFields, KernelFeatures};
+	use grin_core::libtx;
+	let base_tip = plan.pre.last().cloned().unwrap_or(0);
+	let base_h = world.blocks[base_tip].height;
+	let later: Vec<usize> = (1..world.blocks.len()).filter(|i| !plan.pre.contains(i)).collect();
+	let maturity = global::coinbase_maturity();
+	let fee = libtx::tx_fee(1, 1, 1);
+	let mut cand: Option<crate::world::OutInfo> = None;
+	for (k, o) in world.blocks[base_tip].ledger.iter() {
+		if o.value <= fee + 1 || (o.coinbase && o.height + maturity > base_h) {
+			continue;
+		}
+		if later.iter().all(|i| world.blocks[*i].ledger.contains_key(k)) {
+			if cand.as_ref().map(|c| o.height < c.height).unwrap_or(true) {
+				cand = Some(o.clone());
+			}
+		}
+	}
+	let ff = FeeFields::new(0, fee).expect("fee");
+	let stable = cand.map(|o| world.wallet.build_tx(&[o.clone()], &[o.value - fee], None, KernelFeatures::Plain { fee: ff }).0);
+	let ghost_key = world.wallet.fresh_key();
+	let ghost = crate::world::OutInfo {
+		commit: world.wallet.commit(5_000_000_000, &ghost_key),
+		value: 5_000_000_000,
+		key_id: ghost_key,
+		coinbase: false,
+		height: 1,
+		leaf: 0,
+	};
+	let never = world.wallet.build_tx(&[ghost], &[5_000_000_000 - fee], None, KernelFeatures::Plain { fee: ff }).0;
+	Probes { stable, never }
 }
 
 /// `long`: a chain long enough for Chain::compact to act (head >= 81 with AutomatedTesting
@@ -100,6 +147,15 @@ pub fn draw_plan(world: &World, rng: &mut SimRng) -> Plan {
 		segment_thread: rng.chance(1, 2),
 		compactor_thread: long || rng.chance(1, 3),
 		stay_pct: *rng.pick(&[30u64, 60, 85]),
+		late: {
+			let max_branch = world.blocks.iter().map(|b| b.branch).max().unwrap_or(0);
+			if max_branch > 0 && rng.chance(1, 2) {
+				world.blocks.iter().filter(|b| b.branch == max_branch).map(|b| b.id).collect()
+			} else {
+				vec![]
+			}
+		},
+		header_batches: rng.chance(1, 2),
 	}
 }
 
@@ -107,6 +163,7 @@ pub fn draw_plan(world: &World, rng: &mut SimRng) -> Plan {
 struct Shared {
 	violations: Vec<(String, String)>,
 	reader_obs: u64,
+	refused_for_missing_header: u64,
 }
 
 /// Builds the state every run of a plan starts from (all headers, then the plan's prefix of block
@@ -120,6 +177,9 @@ pub fn build_base(world: &World, plan: &Plan, tag: &str) -> Result<std::path::Pa
 	let mut order: Vec<usize> = (1..world.blocks.len()).collect();
 	order.sort_by_key(|i| (world.blocks[*i].height, *i));
 	for id in &order {
+		if plan.late.contains(id) {
+			continue;
+		}
 		chain.process_block_header(&world.blocks[*id].block.header, opts).map_err(|e| format!("header #{}: {:?}", id, e))?;
 	}
 	for id in &plan.pre {
@@ -130,7 +190,7 @@ pub fn build_base(world: &World, plan: &Plan, tag: &str) -> Result<std::path::Pa
 }
 
 /// The body of one run, executed in the child process. Returns a JSON result.
-fn run_in_child(world: &World, plan: &Plan, seed: u64, replay: Option<Vec<u32>>, dir: &Path, base: &Path) -> Value {
+fn run_in_child(world: &World, plan: &Plan, probes: &Probes, seed: u64, replay: Option<Vec<u32>>, dir: &Path, base: &Path) -> Value {
 	if let Err(e) = crate::node::copy_dir(base, dir) {
 		return json!({"harness_error": format!("copy base: {:?}", e)});
 	}
@@ -152,22 +212,93 @@ fn run_in_child(world: &World, plan: &Plan, seed: u64, replay: Option<Vec<u32>>,
 	let mut handles = vec![];
 	let blocks: Arc<Vec<grin_core::core::Block>> = Arc::new(world.blocks.iter().map(|b| b.block.clone()).collect());
 	let tds: Arc<Vec<u64>> = Arc::new(world.blocks.iter().map(|b| b.total_difficulty).collect());
+	let headers_done = Arc::new(std::sync::atomic::AtomicBool::new(plan.late.is_empty()));
+	let has_late = !plan.late.is_empty();
+	if has_late {
+		let chain = chain.clone();
+		let shared = shared.clone();
+		let done = headers_done.clone();
+		let mut ids = plan.late.clone();
+		ids.sort_by_key(|i| (world.blocks[*i].height, *i));
+		let headers: Vec<grin_core::core::BlockHeader> = ids.iter().map(|i| world.blocks[*i].block.header.clone()).collect();
+		let batches = plan.header_batches;
+		handles.push(sched::spawn("headers", move || {
+			global::set_local_chain_type(global::ChainTypes::AutomatedTesting);
+			let ok_err = |s: &str| s.starts_with("Unfit") || s.starts_with("Orphan") || s.starts_with("OldBlock");
+			if batches {
+				for chunk in headers.chunks(2) {
+					let sync_head = match chain.header_head() {
+						Ok(t) => t,
+						Err(e) => {
+							shared.lock().unwrap().violations.push(("header-head-error".into(), format!("{:?}", e)));
+							break;
+						}
+					};
+					if let Err(e) = chain.sync_block_headers(chunk, sync_head, opts) {
+						let s = format!("{:?}", e);
+						if !ok_err(&s) {
+							shared.lock().unwrap().violations.push(("valid-header-refused".into(), format!("header batch at h{}: {}", chunk[0].height, s)));
+						}
+					}
+				}
+			} else {
+				for h in &headers {
+					if let Err(e) = chain.process_block_header(h, opts) {
+						let s = format!("{:?}", e);
+						if !ok_err(&s) {
+							shared.lock().unwrap().violations.push(("valid-header-refused".into(), format!("header h{}: {}", h.height, s)));
+						}
+					}
+				}
+			}
+			done.store(true, std::sync::atomic::Ordering::SeqCst);
+		}));
+	}
 	for (pi, list) in plan.peers.iter().enumerate() {
 		let chain = chain.clone();
+		let headers_done = headers_done.clone();
 		let list = list.clone();
 		let blocks = blocks.clone();
 		let shared = shared.clone();
 		handles.push(sched::spawn(&format!("peer{}", pi), move || {
 			global::set_local_chain_type(global::ChainTypes::AutomatedTesting);
+			let mut refused: Vec<usize> = vec![];
 			for id in list {
 				let r = chain.process_block(blocks[id].clone(), opts);
 				if let Err(e) = r {
 					let s = format!("{:?}", e);
 					let ok = s.starts_with("Unfit") || s.starts_with("Orphan") || s.starts_with("OldBlock");
-					if !ok {
+					if !ok && has_late && s.contains("NotFoundErr") {
+						// parent header not delivered yet (legitimately refused, not orphaned): ask again later
+						refused.push(id);
+						shared.lock().unwrap().refused_for_missing_header += 1;
+					} else if !ok {
 						shared.lock().unwrap().violations.push(("valid-block-refused".into(), format!("peer{} block #{}: {}", pi, id, s)));
 					}
 				}
+			}
+			// as sync would: re-request what was refused once the headers are there
+			let mut spins = 0;
+			while !refused.is_empty() && spins < 20_000 {
+				if !headers_done.load(std::sync::atomic::Ordering::SeqCst) {
+					sched::yield_point("wait-headers", None);
+					spins += 1;
+					continue;
+				}
+				let mut still = vec![];
+				for id in refused.drain(..) {
+					if let Err(e) = chain.process_block(blocks[id].clone(), opts) {
+						let s = format!("{:?}", e);
+						let ok = s.starts_with("Unfit") || s.starts_with("Orphan") || s.starts_with("OldBlock");
+						if !ok && s.contains("NotFoundErr") && spins < 19_990 {
+							still.push(id);
+						} else if !ok {
+							shared.lock().unwrap().violations.push(("valid-block-refused".into(), format!("peer{} block #{} (after all headers were delivered): {}", pi, id, s)));
+						}
+					}
+				}
+				refused = still;
+				spins += 1;
 			}
 		}));
 	}
@@ -177,6 +308,7 @@ fn run_in_child(world: &World, plan: &Plan, seed: u64, replay: Option<Vec<u32>>,
 		let iters = plan.reader_iters;
 		let commits: Vec<Commitment> = world.wallet.known.values().take(6).map(|o| o.commit).collect();
 		let hash_td: Vec<(grin_core::core::hash::Hash, u64)> = world.blocks.iter().map(|b| (b.hash, b.total_difficulty)).collect();
+		let probes = probes.clone();
 		handles.push(sched::spawn(&format!("reader{}", ri), move || {
 			global::set_local_chain_type(global::ChainTypes::AutomatedTesting);
 			let mut last_td = 0u64;
@@ -223,6 +355,16 @@ fn run_in_child(world: &World, plan: &Plan, seed: u64, replay: Option<Vec<u32>>,
 							shared.lock().unwrap().violations.push(("header-for-output-error".into(), s));
 						}
 					}
+				}
+				// a transaction whose input is unspent in every committed state validates at any moment;
+				// one whose input exists in no state never does
+				if let Some(tx) = &probes.stable {
+					if let Err(e) = chain.validate_tx(tx) {
+						shared.lock().unwrap().violations.push(("validate-tx-saw-uncommitted-state".into(), format!("reader{}: a transaction spending an output that is unspent in every committed state was refused: {:?}", ri, e)));
+					}
+				}
+				if chain.validate_tx(&probes.never).is_ok() {
+					shared.lock().unwrap().violations.push(("validate-tx-accepted-nonexistent-input".into(), format!("reader{}: a transaction spending an output that exists in no state validated", ri)));
 				}
 				shared.lock().unwrap().reader_obs += 1;
 			}
@@ -340,6 +482,7 @@ fn run_in_child(world: &World, plan: &Plan, seed: u64, replay: Option<Vec<u32>>,
 		"deadlock": out.deadlock.is_some(),
 		"final": final_state,
 		"reader_obs": shared.lock().unwrap().reader_obs,
+		"refused_for_missing_header": shared.lock().unwrap().refused_for_missing_header,
 		"tail_height": chain.tail().map(|t| t.height).unwrap_or(0),
 		"threads": out.names,
 		"trace_tail": out.trace.iter().rev().take(12).map(|(t, l)| format!("{}:{}", t, l)).collect::<Vec<_>>(),
@@ -347,7 +490,7 @@ fn run_in_child(world: &World, plan: &Plan, seed: u64, replay: Option<Vec<u32>>,
 }
 
 /// Fork a child for one run; returns its JSON result.
-pub fn run_forked(world: &World, plan: &Plan, seed: u64, replay: Option<Vec<u32>>, tag: &str, base: &Path) -> Result<Value, String> {
+pub fn run_forked(world: &World, plan: &Plan, probes: &Probes, seed: u64, replay: Option<Vec<u32>>, tag: &str, base: &Path) -> Result<Value, String> {
 	let dir = fresh_dir(tag);
 	let out_file = dir.join("result.json");
 	let mut spins = 0;
@@ -360,7 +503,7 @@ pub fn run_forked(world: &World, plan: &Plan, seed: u64, replay: Option<Vec<u32>
 		return Err("fork failed".into());
 	}
 	if pid == 0 {
-		let v = std::panic::catch_unwind(std::panic::AssertUnwindSafe(|| run_in_child(world, plan, seed, replay, &dir, base)))
+		let v = std::panic::catch_unwind(std::panic::AssertUnwindSafe(|| run_in_child(world, plan, probes, seed, replay, &dir, base)))
 			.unwrap_or_else(|_| json!({"harness_error": "child panicked outside simulated threads"}));
 		let _ = std::fs::write(&out_file, serde_json::to_string(&v).unwrap_or_default());
 		unsafe { libc::_exit(0) }
@@ -397,7 +540,7 @@ fn thread_count() -> usize {
 }
 
 fn plan_json(p: &Plan) -> Value {
-	json!({"pre": p.pre, "peers": p.peers, "readers": p.readers, "reader_iters": p.reader_iters, "builder": p.builder_thread, "segments": p.segment_thread, "compactor": p.compactor_thread, "stay_pct": p.stay_pct})
+	json!({"pre": p.pre, "peers": p.peers, "readers": p.readers, "reader_iters": p.reader_iters, "builder": p.builder_thread, "segments": p.segment_thread, "compactor": p.compactor_thread, "stay_pct": p.stay_pct, "late": p.late, "header_batches": p.header_batches})
 }
 
 fn plan_from_json(v: &Value) -> Option<Plan> {
@@ -410,6 +553,8 @@ fn plan_from_json(v: &Value) -> Option<Plan> {
 		segment_thread: v["segments"].as_bool()?,
 		compactor_thread: v["compactor"].as_bool()?,
 		stay_pct: v["stay_pct"].as_u64()?,
+		late: serde_json::from_value(v["late"].clone()).unwrap_or_default(),
+		header_batches: v["header_batches"].as_bool().unwrap_or(false),
 	})
 }
 
@@ -435,6 +580,13 @@ pub fn case(tier: &str, seed: u64, case: u64) -> CaseResult {
 	'outer: for pi in 0..plans {
 		let mut pr = rng.fork(&format!("plan{}", pi));
 		let plan = draw_plan(&world, &mut pr);
+		let probes = build_probes(&mut world, &plan);
+		if probes.stable.is_some() {
+			res.probe("validate_tx_probe_built");
+		}
+		if !plan.late.is_empty() {
+			res.probe("concurrent_header_delivery");
+		}
 		let base = match build_base(&world, &plan, &format!("sched-c{}p{}base", case, pi)) {
 			Ok(b) => b,
 			Err(e) => {
@@ -444,7 +596,7 @@ pub fn case(tier: &str, seed: u64, case: u64) -> CaseResult {
 		};
 		for si in 0..schedules {
 			let sseed = pr.next_u64();
-			let r = match run_forked(&world, &plan, sseed, None, &format!("sched-c{}p{}s{}", case, pi, si), &base) {
+			let r = match run_forked(&world, &plan, &probes, sseed, None, &format!("sched-c{}p{}s{}", case, pi, si), &base) {
 				Ok(v) => v,
 				Err(e) => {
 					res.harness_error = Some(e);
@@ -464,6 +616,7 @@ pub fn case(tier: &str, seed: u64, case: u64) -> CaseResult {
 			if r["out_of_steps"].as_bool().unwrap_or(false) {
 				res.probe("out_of_steps");
 			}
+			res.probe_n("body_refused_until_header_arrived", r["refused_for_missing_header"].as_u64().unwrap_or(0));
 			if r["tail_height"].as_u64().unwrap_or(0) >= 20 {
 				res.probe("compaction_moved_tail_under_concurrency");
 			}
@@ -476,7 +629,7 @@ pub fn case(tier: &str, seed: u64, case: u64) -> CaseResult {
 			// determinism self-test: replaying the recorded choices reproduces the trace exactly
 			if !determinism_checked {
 				let choices: Vec<u32> = serde_json::from_value(r["choices"].clone()).unwrap_or_default();
-				if let Ok(r2) = run_forked(&world, &plan, sseed, Some(choices), &format!("sched-c{}det", case), &base) {
+				if let Ok(r2) = run_forked(&world, &plan, &probes, sseed, Some(choices), &format!("sched-c{}det", case), &base) {
 					if r2["trace_digest"] != r["trace_digest"] {
 						res.harness_error = Some(format!("replay of the recorded schedule diverged: {} vs {}", r["trace_digest"], r2["trace_digest"]));
 						let _ = std::fs::remove_dir_all(&base);
@@ -512,8 +665,9 @@ pub fn replay(rp: &Value) -> Result<Option<Violation>, String> {
 	let plan = plan_from_json(&rp["plan"]).ok_or("bad plan")?;
 	let choices: Vec<u32> = serde_json::from_value(rp["choices"].clone()).map_err(|e| format!("{}", e))?;
 	let mut world = build_world(seed, rp["long"].as_bool().unwrap_or(false))?;
+	let probes = build_probes(&mut world, &plan);
 	let base = build_base(&world, &plan, "sched-replay-base")?;
-	let r = run_forked(&world, &plan, rp["sched_seed"].as_u64().unwrap_or(0), Some(choices), "sched-replay", &base);
+	let r = run_forked(&world, &plan, &probes, rp["sched_seed"].as_u64().unwrap_or(0), Some(choices), "sched-replay", &base);
 	let _ = std::fs::remove_dir_all(&base);
 	world.cleanup();
 	let r = r?;
